@@ -15,8 +15,7 @@ verus! {
 //@include shims/cp437.rs
 pub mod spec {
     use super::*;
-//@item src/spec.rs | const LOCAL_FILE_HEADER_SIGNATURE
-//@item src/spec.rs | const CENTRAL_DIRECTORY_HEADER_SIGNATURE
+//@include common/spec_consts.rs
 //@item src/spec.rs | struct CentralDirectoryEnd
 //@item src/spec.rs | struct Zip64CentralDirectoryEndLocator
 //@item src/spec.rs | struct Zip64CentralDirectoryEnd
